@@ -402,6 +402,10 @@ impl Gen {
             3 => {
                 self.ops.push(Op::WorseTip);
                 self.ops.push(Op::Poll);
+                if self.rng.chance(1, 3) {
+                    // ... and the tower is restarted right after having seen the equal-work sibling
+                    self.ops.push(Op::Restart);
+                }
             }
             4 => self.ops.push(Op::RegisterBadId {
                 kind: self.rng.below(5) as u32,
